@@ -605,7 +605,19 @@ def execute(scenario: dict, env: Any, *, prop: str) -> dict:
                 if cv["nonhashed_cat"] and not mism and survivors > 0:
                     raise Violation("c09:level-change-no-warning", {"fault": fault, "var_roles": cv, "warnings": [str(w.message)[:80] for w in wlist]})
                 if fk == "level_gain":
-                    check_follow(h, ids, got, "c09:level-gain", skip_rows=set(fl["rows"]))
+                    try:
+                        check_follow(h, ids, got, "c09:level-gain", skip_rows=set(fl["rows"]))
+                    except Violation:
+                        # only the fault's doing if the same follow-up WITHOUT the unseen level matches the reference
+                        clean = frame(ids, op["index"], recat=op.get("recat"))
+                        with warnings.catch_warnings():
+                            warnings.simplefilter("ignore")
+                            try:
+                                check_follow(h, ids, canon(call(h["spec"], op["entry"], clean, h.get("mm")), Structured), "c04")
+                            except Exception:  # noqa: BLE001  (C04's subject; the C04 check reports it)
+                                log.append([step, "level-gain-rows-mismatch-not-c09"])
+                                continue
+                        raise
                     bump(stats, "probes", "level_gain_rows_checked")
                 continue
             if kind == "restart" and op["how"] == "xproc":
@@ -627,6 +639,8 @@ def execute(scenario: dict, env: Any, *, prop: str) -> dict:
                         continue
                     a, b = mine.get(key), theirs.get(key)
                     if not xproc_equal(a, b):
+                        if prop == "C09":
+                            break  # C04's subject; the C04 check reports it
                         raise Violation("c04:restart-not-identical", {"how": "xproc: spec pickled here, restored in another interpreter (PYTHONHASHSEED %s vs %s)" % (env.hashseed, theirs.get("hashseed")),
                                                                       "aspect": key, "original": xproc_brief(a), "restored": xproc_brief(b)})
                 continue
